@@ -491,7 +491,7 @@ pub fn random_ir(t: &mut Tape) -> Value {
                 "httpPath": path,
                 "args": args,
                 "markers": [],
-                "tags": if t.chance(1, 4) { json!(["server-request-context"]) } else { json!([]) },
+                "tags": endpoint_tags(t),
             });
             match t.draw(4) {
                 0 => {}
@@ -623,7 +623,7 @@ pub fn cyclic_ir(t: &mut Tape) -> Value {
         if t.chance(1, 2) {
             args.push(json!({"argName": "q", "type": {"type": "primitive", "primitive": "STRING"}, "paramType": {"type": "query", "query": {"paramId": "q"}}, "markers": [], "tags": []}));
         }
-        let mut ep = json!({"endpointName": format!("hold{}", e), "httpMethod": "POST", "httpPath": format!("/ring/{}", e), "args": args, "markers": [], "tags": []});
+        let mut ep = json!({"endpointName": format!("hold{}", e), "httpMethod": "POST", "httpPath": format!("/ring/{}", e), "args": args, "markers": [], "tags": endpoint_tags(t)});
         if t.chance(1, 2) {
             ep["returns"] = any_ref(t);
         }
@@ -648,6 +648,30 @@ const REPO_IRS: &[&str] = &[
 ];
 
 static SCRATCH_COUNTER: AtomicU64 = AtomicU64::new(0);
+
+/// Endpoint tags: the ones the generator interprets (request context, request size limits - none,
+/// one, several agreeing, several conflicting, in assorted spellings) and ones it does not know.
+fn endpoint_tags(t: &mut Tape) -> Value {
+    let mut tags: Vec<String> = Vec::new();
+    if t.chance(1, 4) {
+        tags.push("server-request-context".into());
+    }
+    if t.chance(1, 3) {
+        let n = 1 + t.size(3);
+        for _ in 0..n {
+            let size = *t.pick(&["1kb", "1 kb", "1000b", "1000", "2kib", "2048b", "3mb", "50 MiB", "10b", "0b", "1gb"]);
+            tags.push(format!("server-limit-request-size:{}{}", if t.chance(1, 2) { " " } else { "" }, size));
+        }
+    }
+    if t.chance(1, 6) {
+        tags.push(t.pick(&["incubating", "server-async", "deprecated-soon", "server-limit-request-size", "Server-Request-Context"]).to_string());
+    }
+    // order as drawn, sometimes reversed: tags are a set in the IR
+    if t.chance(1, 2) {
+        tags.reverse();
+    }
+    json!(tags)
+}
 
 struct Exec {
     label: String,
